@@ -283,3 +283,9 @@ Definition ecase_ok (c : ecase) : bool :=
   | Some r => rres_eqb r (ec_obs c)
   | None => false
   end.
+
+(* did the fuel suffice?  (cases on which it did not fall back to the re oracle and are counted) *)
+Definition ecase_fuel_ok (c : ecase) : bool :=
+  match eeval big_fuel (ec_fl c) (ec_p c) (ec_s c) (ec_op c) with Some _ => true | None => false end.
+Definition mcase_fuel_ok (c : mcase) : bool :=
+  match engine_finditer big_fuel (mc_fl c) (mc_p c) (mc_s c) with Some _ => true | None => false end.
